@@ -181,7 +181,7 @@ RetUpdate(e) ==
       q == [p EXCEPT !.cur = NoCall] IN
   IF e.f = "open" THEN (IF e.rc = OK /\ d.ph = "open" THEN [q EXCEPT !.hd[e.h].own = TRUE] ELSE q)
   ELSE IF d.ph # "open" \/ e.f = "close" THEN q
-  ELSE [q EXCEPT !.hd[e.h].exp = IF Accepts(e.f, e.h, d, e.st) THEN e.st ELSE ExpAfter(e.f, e.h, d)]
+  ELSE [q EXCEPT !.hd[e.h].exp = e.st]    \* a refused report is flagged once, then taken as the new baseline
 
 WellFormed(e) ==
   /\ "e" \in DOMAIN e
